@@ -337,7 +337,18 @@ def main():
             elif k == 'sweep':
                 out.append(run_sweep(c))
             elif k == 'real':
-                out.append(run_real(c, tmpdir, seq))
+                try:
+                    out.append(run_real(c, tmpdir, seq))
+                except Exception as exc:     # noqa -- the scenario itself failed: reported
+                    import traceback
+                    out.append(dict(crash='%s: %s' % (type(exc).__name__, exc),
+                                    trace=traceback.format_exc()[-800:]))
+                    for p in list(bprocess._children):
+                        try:
+                            os.kill(p.pid, signal.SIGKILL)
+                        except Exception:    # noqa
+                            pass
+                    bprocess._children.clear()
             elif k == 'fs':
                 out.append(run_fs(c))
             elif k == 'human':
